@@ -430,6 +430,29 @@ func genC18(r *RNG, tier string) []Case {
 				return o
 			}))
 		}
+		if len(a) > 0 && i%2 == 1 {
+			// ... and sets obtained from the binary form the server sends (PREVIOUS_GTIDS / the SID block): decoding the
+			// block of a must give a set equal to a, with the same members (single-number intervals included)
+			as := a
+			blk := as.impl().SIDBlock()
+			cs = append(cs, gtidCase("g56 op=fromblock b="+hx(blk), "from-sid-block", true, func(resp map[string]string) Outcome {
+				impl := catch(func() string {
+					x, err := replication.NewMysql56GTIDSetFromSIDBlock(blk)
+					if err != nil {
+						return "err"
+					}
+					if !x.Equal(as.impl()) || !as.impl().Equal(x) || !x.Contains(as.impl()) || x.String() != as.impl().String() {
+						return "ok-but-differs:" + showImplSet(x)
+					}
+					return "ok:" + showImplSet(x)
+				})
+				o := Outcome{Impl: impl, Model: resp["model"], CorrOK: impl == resp["model"], OracleOK: impl == "ok:"+as.abs()}
+				if !o.OracleOK {
+					o.Note, o.FindingKey = "decoding the SID block of a set does not give that set", "from-sid-block"
+				}
+				return o
+			}))
+		}
 		sid := sidPool[r.Intn(len(sidPool))]
 		seq := int64(r.Range(1, 12))
 		if i%2 == 0 && len(a[sid]) > 0 {
